@@ -50,14 +50,17 @@ type finObj struct {
 
 var (
 	finMu     sync.Mutex
-	finalized = map[int]bool{}
+	finalized = map[int]bool{} // only ids of the line being replayed (finLine)
+	finLine   = -1
 )
 
 func newFin(id int) *finObj {
 	f := &finObj{id: id}
 	runtime.SetFinalizer(f, func(f *finObj) {
 		finMu.Lock()
-		finalized[f.id] = true
+		if f.id/1000 == finLine {
+			finalized[f.id] = true
+		}
 		finMu.Unlock()
 	})
 	return f
@@ -303,6 +306,9 @@ func TestVerifC01(t *testing.T) {
 			out.Put(op.Idx, "bad-op")
 			continue
 		}
+		finMu.Lock()
+		finLine, finalized = op.Idx, map[int]bool{}
+		finMu.Unlock()
 		var builders [4]*mocker.Builder
 		builder := func(b int) *mocker.Builder {
 			if builders[b] == nil {
